@@ -33,7 +33,7 @@ RULE = (
     "descriptors vs the three runtime tables, all rows; (route) 1-12 frames of declared ids with generated valid payloads, interleaved with repeated undeclared ids (which must reach nobody), "
     "on plaintext|noise sessions with a subscriber per class, plus the reverse direction through send_message; (sweep) "
     "sequences of 1-8 public API calls (argument variant 0-5 per recipe, negotiated API version from {1.0,1.2,1.4,1.10}, "
-    "login on/off, returned unsubscribe handles invoked) with a device that answers every request, a keepalive tick and a "
+    "login on/off, returned unsubscribe handles invoked, optionally after the device sent one message of every server-originated type so that handler-driven writes are covered) with a device that answers every request, a keepalive tick and a "
     "device-initiated ping/time/disconnect request. non-trivial = the case exchanged at least one message in each "
     "direction after the handshake, or is a table/id case."
 )
@@ -258,6 +258,14 @@ def run_sweep(case: dict) -> CaseResult:
         from aioesphomeapi import api_pb2 as pb
 
         cli = sess.cli
+        handles: list = []
+
+        async def call_handles():
+            while handles:
+                x = handles.pop(0)()
+                if inspect.isawaitable(x):
+                    await x
+
         for name, variant in case["calls"]:
             if sess.conn.connection_state.name != "CONNECTED":
                 break
@@ -269,12 +277,30 @@ def run_sweep(case: dict) -> CaseResult:
                 except Exception as e:  # noqa: BLE001 – outcome irrelevant here, only the traffic is judged
                     env.log("sweep_call_raised", name=name, exc=type(e).__name__)
                     r = None
-            if case.get("unsub", True) and r is not None:
-                for f in r if isinstance(r, tuple) else (r,):
-                    if callable(f):
-                        x = f()
-                        if inspect.isawaitable(x):
-                            await x
+            if r is not None:
+                handles.extend(f for f in (r if isinstance(r, tuple) else (r,)) if callable(f))
+            if case.get("unsub", True) and not case.get("stimulate"):
+                await call_handles()
+        if case.get("stimulate") and sess.conn.connection_state.name == "CONNECTED":
+            # the device sends one message of every server-originated type (default payload) while the
+            # subscriptions are live: whatever the handlers write back is judged by direction as well
+            tr_ = sess.dsess.transport
+            for i in sorted(tids):
+                nm = tids[i]
+                if SRC[T[nm]["source"]] == 2 or i in (5, 2, 4):
+                    continue
+                m_ = getattr(pb, nm)()
+                if nm == "VoiceAssistantRequest":
+                    m_.start = True
+                if nm == "CameraImageResponse":
+                    m_.done = True
+                if not tr_.closing:
+                    tr_.feed(sess.dsess.encode(m_))
+            if case.get("unsub", True):
+                if case.get("stimulate") == "then_wait":
+                    await asyncio.sleep(2.0)
+                await call_handles()
+            await asyncio.sleep(2.0)
         extra = case.get("peer")
         if extra and sess.conn.connection_state.name == "CONNECTED":
             sess.dsess.transport.feed(sess.dsess.encode({"ping": pb.PingRequest(), "time": pb.GetTimeRequest()}[extra]))
@@ -386,7 +412,7 @@ def _sweep(draw, tier):
     return {
         "kind": "sweep", "noise": draw(st.integers(0, 3)) == 0, "login": draw(st.booleans()),
         "api": draw(st.sampled_from([[1, 0], [1, 2], [1, 4], [1, 10]])), "calls": calls,
-        "unsub": draw(st.booleans()), "peer": draw(st.sampled_from([None, "ping", "time"])),
+        "unsub": draw(st.booleans()), "peer": draw(st.sampled_from([None, "ping", "time"])), "stimulate": draw(st.sampled_from([None, None, True, "then_wait"])),
         "tick": draw(st.integers(0, 3)) == 0, "end": draw(st.sampled_from(["disconnect", "force", "peer"])),
     }
 
@@ -411,6 +437,12 @@ def enumerated(tier):
     for u in (0, mx + 1, 65535):
         for known in (25, 26, mx):
             yield {"kind": "route", "noise": u == 65535, "frames": [[known, {}], [u, {"hex": "0801"}], [u, {"hex": "0801"}], [u, {"hex": ""}], [known, {}]], "send": []}
+    subs = [m for m in _api_methods() if m.startswith("subscribe_")] + ["bluetooth_gatt_start_notify", "bluetooth_device_connect"]
+    for v in range(6):
+        for stim in (True, "then_wait"):
+            yield {"kind": "sweep", "noise": v == 5, "login": True, "api": [1, 10], "calls": [[m, v] for m in subs], "unsub": True, "peer": None, "tick": False, "end": "disconnect", "stimulate": stim}
+            for m in subs:
+                yield {"kind": "sweep", "noise": False, "login": True, "api": [1, 10], "calls": [[m, v]], "unsub": v % 2 == 0, "peer": None, "tick": False, "end": "force", "stimulate": stim}
     for m in _api_methods():
         for v in range(6):
             yield {"kind": "sweep", "noise": v == 5, "login": v != 4, "api": [[1, 10], [1, 0], [1, 2], [1, 4], [1, 10], [1, 10]][v], "calls": [[m, v]],
